@@ -3,10 +3,11 @@ use crate::events::CircuitBreakerEvent;
 #[cfg(feature = "metrics")]
 use metrics::{counter, gauge, histogram};
 use std::collections::VecDeque;
+use std::sync::atomic::AtomicU8;
 #[cfg(not(feature = "verif-hooks"))]
-pub(crate) use std::sync::atomic::{AtomicU8, AtomicUsize, Ordering};
+use std::sync::atomic::{AtomicUsize, Ordering};
 #[cfg(feature = "verif-hooks")]
-pub(crate) use tower_resilience_core::verif::atomic::{AtomicU8, AtomicUsize, Ordering};
+use tower_resilience_core::verif::atomic::{AtomicUsize, Ordering};
 use std::sync::Arc;
 use std::time::{Duration, Instant};
 
@@ -529,6 +530,9 @@ impl Circuit {
         }
 
         self.state = state;
+        // the lock-free mirror keeps its std type; the scheduling point for simulators is explicit
+        #[cfg(feature = "verif-hooks")]
+        tower_resilience_core::verif::yield_point();
         self.state_atomic.store(state as u8, Ordering::Release);
         self.last_state_change = clock_now();
         self.clear_window();
